@@ -14,6 +14,12 @@ def spline_sy(rng, positive=True):
         vals = sorted(rng.uniform(0.02, 1.0) for _ in range(n))
     else:
         vals = [rng.uniform(0.0 if not positive else 0.02, 1.0) for _ in range(n)]
+    if mode >= 0.2 and rng.random() < 0.25:
+        # a uniform layer inside a varying profile: two neighbouring knots with exactly the same
+        # value (a deep layer of 0.1, open water of 1.0) -- the interpolating cubic still bends there
+        j = rng.randrange(n - 1)
+        v = rng.choice([vals[j], 0.1, 1.0])
+        vals[j] = vals[j + 1] = v
     return {'type': 'spline', 'zeta_knots_mm': knots, 'sy_knots': vals}
 
 
